@@ -1301,11 +1301,8 @@ func (p *Parser) parseDeferredBlocks(objIndex uint32) parseResult {
 // only operates on non-named objects.
 func (p *Parser) connectNonNamedObjArgs(objIndex uint32) parseResult {
 	var (
-		obj          = p.objTree.ObjectAt(objIndex)
-		argObj       *Object
-		argFlags     pOpArgTypeList
-		argCount     uint8
-		termArgIndex uint8
+		obj    = p.objTree.ObjectAt(objIndex)
+		argObj *Object
 	)
 
 	// The arg list must be visited in reverse order to handle nesting
@@ -1316,38 +1313,49 @@ func (p *Parser) connectNonNamedObjArgs(objIndex uint32) parseResult {
 			return parseResultFailed
 		}
 
-		// Ignore named objects and objects not defined by the table currently parsed
-		if pOpcodeTable[argObj.infoIndex].flags&pOpFlagNamed != 0 || argObj.tableHandle != p.tableHandle {
-			continue
-		}
-
-		// Check if this object's args specify a TermObj/DataRefObj which
-		// would cause the parser to consume any object found till the
-		// enclosing package end.
-		argFlags = pOpcodeTable[argObj.infoIndex].argFlags
-		argCount = argFlags.argCount()
-		for termArgIndex = 0; termArgIndex < argCount; termArgIndex++ {
-			if argType := argFlags.arg(termArgIndex); argType == pArgTypeTermArg || argType == pArgTypeDataRefObj {
-				break
-			}
-		}
-
-		// No term args OR we have parsed beyond the TermArg; assume object has been completely parsed
-		if termArgIndex >= argCount || p.objTree.NumArgs(argObj) > uint32(termArgIndex) {
-			continue
-		}
-
-		// The parser has already attached args [0, termArgIndex) to
-		// the object and has parsed the remaining args as siblings to
-		// the object. Detach the missing args from the sibling list and
-		// attach them to object. The following call may also return back
-		// parseResultRequireExtraPass which is OK at this stage.
-		if p.attachSiblingsAsArgs(obj, argObj, argCount-termArgIndex, true) == parseResultFailed {
+		if p.connectNonNamedObjArgsOf(obj, argObj) == parseResultFailed {
 			return parseResultFailed
 		}
 	}
 
 	return parseResultOk
+}
+
+// connectNonNamedObjArgsOf connects the missing args of argObj, a child of obj.
+func (p *Parser) connectNonNamedObjArgsOf(obj, argObj *Object) parseResult {
+	var (
+		argFlags     pOpArgTypeList
+		argCount     uint8
+		termArgIndex uint8
+	)
+
+	// Ignore named objects and objects not defined by the table currently parsed
+	if pOpcodeTable[argObj.infoIndex].flags&pOpFlagNamed != 0 || argObj.tableHandle != p.tableHandle {
+		return parseResultOk
+	}
+
+	// Check if this object's args specify a TermObj/DataRefObj which
+	// would cause the parser to consume any object found till the
+	// enclosing package end.
+	argFlags = pOpcodeTable[argObj.infoIndex].argFlags
+	argCount = argFlags.argCount()
+	for termArgIndex = 0; termArgIndex < argCount; termArgIndex++ {
+		if argType := argFlags.arg(termArgIndex); argType == pArgTypeTermArg || argType == pArgTypeDataRefObj {
+			break
+		}
+	}
+
+	// No term args OR we have parsed beyond the TermArg; assume object has been completely parsed
+	if termArgIndex >= argCount || p.objTree.NumArgs(argObj) > uint32(termArgIndex) {
+		return parseResultOk
+	}
+
+	// The parser has already attached args [0, termArgIndex) to
+	// the object and has parsed the remaining args as siblings to
+	// the object. Detach the missing args from the sibling list and
+	// attach them to object. The following call may also return back
+	// parseResultRequireExtraPass which is OK at this stage.
+	return p.attachSiblingsAsArgs(obj, argObj, argCount-termArgIndex, true)
 }
 
 // resolveMethodCalls visits each object with the pOpIntNamePathOrMethodCall
@@ -1387,6 +1395,14 @@ func (p *Parser) resolveMethodCalls(objIndex uint32) parseResult {
 		}
 
 		if argObj.opcode != pOpIntNamePathOrMethodCall || argObj.tableHandle != p.tableHandle {
+			// The missing args of this object follow it as siblings and may
+			// include method calls. Everything to its right has already been
+			// processed, so connect them now; leaving this to a later pass
+			// would let a method call to the left claim the unconnected
+			// operands as its own args.
+			if p.connectNonNamedObjArgsOf(obj, argObj) == parseResultFailed {
+				return parseResultFailed
+			}
 			continue
 		}
 
